@@ -126,6 +126,9 @@ var c20 struct {
 	limit    time.Time
 	since    []time.Duration
 	sinceN   int
+	infos    map[string]logInfo
+	limits   []time.Time
+	sinceBy  map[int64]time.Duration
 	keys     map[string]*ecdsa.PrivateKey
 }
 
@@ -138,6 +141,10 @@ func verifStubJSONUnmarshal(data []byte, v any) error {
 	case *logInfo:
 		if len(data) == 0 {
 			return errors.New("malformed JSON")
+		}
+		if li, ok := c20.infos[string(data)]; ok {
+			*x = li
+			return nil
 		}
 		*x = c20.logInfo
 		return nil
@@ -164,11 +171,20 @@ func verifStubTimeParse(layout, value string) (time.Time, error) {
 	if value == "" {
 		return time.Time{}, errors.New("parsing time: empty")
 	}
+	if value == "alpha" && len(c20.limits) > 0 {
+		return c20.limits[0], nil
+	}
+	if value == "beta" && len(c20.limits) > 1 {
+		return c20.limits[1], nil
+	}
 	return c20.limit, nil
 }
 
 //verif:stub time.Since
 func verifStubSince(t time.Time) time.Duration {
+	if d, ok := c20.sinceBy[t.UnixMilli()]; ok {
+		return d
+	}
 	d := c20.since[c20.sinceN%len(c20.since)]
 	c20.sinceN++
 	return d
